@@ -23,7 +23,10 @@ shutil.rmtree(hd, ignore_errors=True)
 shutil.copytree("/verif/harness", hd, ignore=shutil.ignore_patterns("target"))
 ct = open(os.path.join(hd, "Cargo.toml")).read().replace('path = "/repo"', 'path = "%s"' % wt)
 open(os.path.join(hd, "Cargo.toml"), "w").write(ct)
-env = dict(os.environ, MV_REPO=wt, MV_HARNESS=hd, CARGO_TARGET_DIR=os.path.join(base, "target"))
+tgt = os.path.join(base, "target_" + name)          # own target dir: concurrent runs must not share a binary
+if not os.path.exists(tgt) and os.path.exists(os.path.join(base, "target")):
+    subprocess.run(["cp", "-a", "--reflink=auto", os.path.join(base, "target"), tgt])
+env = dict(os.environ, MV_REPO=wt, MV_HARNESS=hd, CARGO_TARGET_DIR=tgt)
 rc_all = 0
 for p in props:
     r = subprocess.run([sys.executable, "/verif/tools/check.py", p, "--tier", "quick"], env=env, capture_output=True,
@@ -34,6 +37,7 @@ for p in props:
     rc_all |= r.returncode
 subprocess.run(["git", "-C", "/repo", "worktree", "remove", "--force", wt], capture_output=True)
 shutil.rmtree(hd, ignore_errors=True)
+shutil.rmtree(tgt, ignore_errors=True)
 # restore Gen/Consts.v from the real repo
 subprocess.run([sys.executable, "/verif/tools/rs2v.py"], capture_output=True)
 sys.exit(rc_all)
